@@ -26,8 +26,10 @@ LEVEL = "exploration"
 CHUNK_TIMEOUT = 3600
 RULE = (
     "fragment programs (ints, if/elif/else, bounded while/for, break/continue, locals, one module global, attribute get/set on "
-    "objects of a module class incl. aliases and methods, list literal/index/append/subscript store, helper calls with early "
-    "returns and global side effects) generated as IR and source from (seed, index), 3 inputs each, executed by the real "
+    "objects of a module class incl. aliases and methods, list literal/index/append/subscript store, lists nested in lists and in "
+    "dicts with constant keys, container aliases, element stores through a variable or through the nested path before / after "
+    "nesting read back through the other path (outer[i][j]), helper calls with early returns and global side effects) "
+    "generated as IR and source from (seed, index), 3 inputs each, executed by the real "
     "executor + RemoteStatementSlicingObserver under {CHECKED} and {BRANCH,LINE,CHECKED}; oracle = LINE ground truth of the "
     "uninstrumented twin (checked ⊆ executed), membership of every slice instruction in the executed trace, and an independent "
     "IR interpreter that propagates line provenance (data, control, call/return; only certain dependences) whose set must be "
@@ -38,6 +40,8 @@ RULE = (
 ASSUMPTIONS = [
     "sys.monitoring LINE events of CPython 3.12 on the uninstrumented twin define 'executed line'",
     "the IR interpreter's dependences are certain dynamic data/control dependences (it under-approximates)",
+    "containers of the IR are objects with identity; a cell carries the provenance of its last store whatever path (variable, alias, "
+    "element of another container) was used, so a read depends on exactly the last store into that cell",
     "not demanded, only recorded as anomaly 'documented-limitation:*': mutation through list.append (tests/slicer/"
     "test_expected_failures.py::test_mod_untraced_object) and the definition of the base reference of an attribute load/store "
     "and of the container/index of a subscript store (slicer/stack/stacksimulation.py update_push_operations: 'the use data "
@@ -47,7 +51,16 @@ ASSUMPTIONS = [
 ]
 
 DEP_CLASSES = ["if", "elif", "while", "for", "for-with-break", "local-assign", "global-store", "global-init", "attribute-store", "attribute-store-in-init",
-               "object-creation", "list-literal", "list-append", "subscript-store", "return"]
+               "object-creation", "list-literal", "dict-literal", "list-append", "subscript-store", "return"]
+# shapes of container reads (vlib/depinterp.py Interp._ev idx / idx2): counted when the returned value depends, as a demanded
+# dependence, on both the reading line and the store line.  (quick floor, thorough floor, met by the directed chunk alone)
+FEATURE_FLOORS = {
+    "nested-subscript-read-after-alias-store": (100, 1000, 30),
+    "nested-subscript-read-of-store-before-nesting": (100, 1000, 10),
+    "nested-subscript-read-after-nested-store": (12, 120, 6),
+    "alias-subscript-read-after-nested-store": (12, 120, 6),
+    "nested-subscript-read-of-store-followed-by-store-to-same-container": (12, 120, 8),
+}
 
 
 def floors(tier):
@@ -59,6 +72,7 @@ def floors(tier):
         "slice-recomputed": 900 if q else 9000, "assertion:slice-evaluated": 60 if q else 600,
         "combined-observers:evaluated": 60 if q else 600, "rich:soundness-evaluated": 150 if q else 1500,
     })
+    classes.update({f"feature:{f}": (lo if q else hi) for f, (lo, hi, _directed) in FEATURE_FLOORS.items()})
     return {"evals": 1200 if q else 12000, "distinct": 700 if q else 7000, "classes": classes}
 
 
@@ -290,13 +304,15 @@ def _fragment_program(env, ctx, prog, inputs, origin, metric_names, two_stmt_inp
                 it = D.Interp(prog)
                 r1 = it.run(a, b)
                 need, need_sup, executed_ir, value = set(r1.need), set(r1.need_supported), set(r1.executed), [r1.value]
-                direct, root = r1.direct, r1.root
+                direct, root, features, hidden = r1.direct, r1.root, set(r1.features), set(r1.hidden)
                 if two:
                     r2 = it.run(r1.value, b + 1, a_val=r1.ret, keep_state=True)
                     need |= r2.need
                     need_sup |= r2.need_supported
                     executed_ir |= r2.executed
                     value.append(r2.value)
+                    features |= r2.features
+                    hidden |= r2.hidden
                     for frm, d in r2.direct.items():
                         for to, kind in d.items():
                             direct.setdefault(frm, {}).setdefault(to, kind)
@@ -317,6 +333,7 @@ def _fragment_program(env, ctx, prog, inputs, origin, metric_names, two_stmt_inp
             res, cap = env.execute(ld, codes)
             classes = ["fragment:completeness-evaluated", f"metrics:{ld.metrics}"] + [f"dep:{prog.tag[ln].replace('-with-break', '')}" for ln in need if ln in prog.tag]
             classes += [f"dep:{prog.tag[ln]}" for ln in need if prog.tag.get(ln, "").endswith("-with-break")]
+            classes += [f"feature:{f}" for f in features]
             if two:
                 classes.append("fragment:two-statement-test")
             ctx.ok(cls=sorted(set(classes)), distinct=f"{origin}|{a},{b}|{ld.metrics}|{int(two)}" if len(need) >= 4 else None)
@@ -345,7 +362,7 @@ def _fragment_program(env, ctx, prog, inputs, origin, metric_names, two_stmt_inp
                     ctx.anomaly(f"statement-criterion-is-{ei.name}-not-the-store-of-the-statement")
                 _check_slice_in_trace(ctx, ld, trace, crit.trace_position, executed, case)
             # (c) completeness on the fragment
-            _completeness(ctx, prog, D, need, need_sup, direct, root, checked, src_lines, case, "")
+            _completeness(ctx, prog, D, need, need_sup, direct, root, checked, src_lines, case, "", hidden)
             if len(ctx.samples) < 3:
                 ctx.sample({"origin": origin, "call": codes, "metrics": ld.metrics, "oracle_dependence_lines": sorted(need), "checked_lines": sorted(checked),
                             "executed_lines": len(executed)})
@@ -353,7 +370,7 @@ def _fragment_program(env, ctx, prog, inputs, origin, metric_names, two_stmt_inp
         env.unload(ld)
 
 
-def _completeness(ctx, prog, D, need, need_sup, direct, root, checked, src_lines, case, prefix):
+def _completeness(ctx, prog, D, need, need_sup, direct, root, checked, src_lines, case, prefix, hidden=()):
     class R:
         pass
 
@@ -367,7 +384,7 @@ def _completeness(ctx, prog, D, need, need_sup, direct, root, checked, src_lines
             fr = D.frontier(r, root, checked)
         seen = set()
         for ln, kind, frm in fr:
-            key = prefix + ("missing-dependence:entry-return" if kind == "entry-return" else D.mechanism(prog, ln, kind, frm))
+            key = prefix + ("missing-dependence:entry-return" if kind == "entry-return" else D.mechanism(prog, ln, kind, frm, hidden))
             if key in seen:
                 continue
             seen.add(key)
@@ -458,7 +475,7 @@ def _assertion_chunk(spec, ctx):
                             if not (ei.file == "<ast>" and ei.name.startswith("STORE_")):
                                 ctx.anomaly(f"combined-observers:statement-criterion-is-{ei.name}-not-the-store-of-the-statement")
                             _check_slice_in_trace(ctx, ld, trace, crit.trace_position, executed, case, "combined-observers:")
-                        _completeness(ctx, prog, D, set(r1.need), set(r1.need_supported), r1.direct, r1.root, checked, src_lines, case, "combined-observers:")
+                        _completeness(ctx, prog, D, set(r1.need), set(r1.need_supported), r1.direct, r1.root, checked, src_lines, case, "combined-observers:", r1.hidden)
                         continue
                     if not trace.executed_assertions:
                         ctx.anomaly("assertion-not-recorded")
@@ -478,7 +495,7 @@ def _assertion_chunk(spec, ctx):
                         if extra:
                             ln = min(extra)
                             ctx.witness(f"assertion-slice:checked-line-not-executed:{prog.tag.get(ln) or _line_kind(src_lines, ln)}", f"lines {sorted(extra)} checked by the assertion but not executed", case)
-                        _completeness(ctx, prog, D, set(r1.need), set(r1.need_supported), r1.direct, r1.root, checked, src_lines, case, "assertion-slice:")
+                        _completeness(ctx, prog, D, set(r1.need), set(r1.need_supported), r1.direct, r1.root, checked, src_lines, case, "assertion-slice:", r1.hidden)
             finally:
                 env.unload(ld)
 
